@@ -11,7 +11,7 @@ open Model.Pipeline
 
 structure PipeDrv where
   cfg : Config := ⟨0, false⟩
-  sys : Sys := Sys.init ⟨[], [], [], []⟩
+  sys : Sys := Sys.init ⟨[], [], [], [], []⟩
   seenEmitted : Nat := 0
   seenPublished : Nat := 0
   deriving Inhabited
@@ -24,8 +24,8 @@ def pm (n : Nat) : String := if n = 0 then "0" else "+"
 
 def sortStrs (l : List String) : List String := (l.toArray.qsort (· < ·)).toList
 
-def devLine (d : Device) : String :=
-  s!"D {xh d.eui} addr={d.devAddr} nwk={xh d.nwkSKey} apps={xh d.appSKey} up={d.fcntUp} dn={d.fcntDn} warn={b01 d.keyWarning} nonces={natsText ((d.nonces.toArray.qsort (· < ·)).toList)}"
+def devLine (db : DB) (d : Device) : String :=
+  s!"D {xh d.eui} addr={d.devAddr} nwk={xh d.nwkSKey} apps={xh d.appSKey} up={d.fcntUp} dn={d.fcntDn} warn={b01 d.keyWarning} nonces={natsText (((db.noncesOf d.eui).toArray.qsort (· < ·)).toList)}"
 def inLine (r : InRow) : String := s!"I {xh r.dev} ts={r.ts} data={xh r.data} gw={xh r.gw} addr={r.devAddr} radio={r.radio}"
 def outLine (m : OutRow) : String :=
   s!"O {xh m.dev} created={m.created} port={m.port} data={xh m.data} ack={b01 m.ack} sent={pm m.sent} acked={pm m.acked} fcnt={m.fcntUp}"
@@ -55,8 +55,9 @@ def handlePipe (g : PipeDrv) : List String → PipeDrv × String
     let m := kvs rest
     let d : Device := { eui := getH m "eui", appEUI := getH m "app", devAddr := getN m "addr", appKey := getH m "appkey",
                         nwkSKey := getH m "nwk", appSKey := getH m "apps", fcntUp := getN m "up", fcntDn := getN m "dn",
-                        relaxed := getB m "relaxed", keyWarning := getB m "warn", nonces := natList (getS m "nonces") }
-    ({ g with sys := { g.sys with db := { g.sys.db with devices := g.sys.db.devices ++ [d] } } }, "ok")
+                        relaxed := getB m "relaxed", keyWarning := getB m "warn", nonces := [] }
+    let ns := (natList (getS m "nonces")).map (fun n => (d.eui, n))
+    ({ g with sys := { g.sys with db := { g.sys.db with devices := g.sys.db.devices ++ [d], nonces := g.sys.db.nonces ++ ns } } }, "ok")
   | "pipe.deliver" :: rest =>
     let m := kvs rest
     let gw : GwCtx := ⟨getH m "gw", getN m "ts", getS m "radio", getS m "dr", getN m "clock"⟩
@@ -91,7 +92,7 @@ def handlePipe (g : PipeDrv) : List String → PipeDrv × String
     let newE := s.emitted.drop g.seenEmitted
     let newP := s.published.drop g.seenPublished
     ({ g with seenEmitted := s.emitted.length, seenPublished := s.published.length },
-     s!"devices={joinLines (sortStrs (s.db.devices.map devLine))} inbox={joinLines (sortStrs (s.db.inbox.map inLine))} outbox={joinLines (sortStrs (s.db.outbox.map outLine))} emitted={joinLines (sortStrs (newE.map downLine))} published={joinLines (sortStrs (newP.map pubLine))}")
+     s!"devices={joinLines (sortStrs (s.db.devices.map (devLine s.db)))} inbox={joinLines (sortStrs (s.db.inbox.map inLine))} outbox={joinLines (sortStrs (s.db.outbox.map outLine))} emitted={joinLines (sortStrs (newE.map downLine))} published={joinLines (sortStrs (newP.map pubLine))}")
   | _ => (g, "bad-args")
 
 /-- `join.tx appkey= app=<wire hex> dev=<wire hex> nonce=<wire hex>`: the join-request of a conformant device (Spec). -/
